@@ -535,8 +535,9 @@ fn set_op<T: El>(rng: &mut Rng, mon: &SetMon<T>, keyspace: u64, max_len: usize, 
     let prefix = |rng: &mut Rng| if rng.chance(1, 2) { MAXN } else { rng.below(mon.model.len() as u64 + 1) };
     match code {
         SRetain => Op::new(code).with_list(pred(rng)),
-        SDrain => Op::n(code, prefix(rng)).with_v((!noforget && rng.chance(1, 6)) as u64),
-        SDrainFilter => Op::n(code, prefix(rng)).with_list(pred(rng)).with_k((!noforget && rng.chance(1, 6)) as u64),
+        // (forgetting leaks what the iterator still owns: only on small sets)
+        SDrain => Op::n(code, prefix(rng)).with_v((!noforget && mon.model.len() <= 64 && rng.chance(1, 6)) as u64),
+        SDrainFilter => Op::n(code, prefix(rng)).with_list(pred(rng)).with_k((!noforget && mon.model.len() <= 64 && rng.chance(1, 6)) as u64),
         SIntoIter => Op::n(code, prefix(rng)),
         SExtend => {
             let n = rng.usize(10);
